@@ -89,6 +89,22 @@ def _gen_index_case(ch: core.Chooser) -> dict:
         case["errstate"] = "raise"
     if ch.chance(0.2):
         case["abort_first"] = ch.below(100000)
+    c2 = ch.sub("more")
+    if c2.chance(0.1):
+        # one short and one long axis: degree sums beyond 255 while every single exponent stays small enough for a
+        # compact storage type
+        long_ = c2.between(250, 300)
+        stop2 = [c2.between(1, 4), long_]
+        start2 = [0, c2.between(max(0, long_ - 12), long_)] if c2.chance(0.7) else [0, long_ - 3]
+        if c2.chance(0.5):
+            stop2, start2 = stop2[::-1], start2[::-1]
+        case.update(dimensions=2, stop=stop2, start=start2, cross_truncation=c2.choice([1, 2, "inf", "inf"]))
+        if case.get("bound_dtype") == "uint8":
+            case["bound_dtype"] = "uint16"
+    if c2.chance(0.2):
+        # an allocation request made inside the call fails (MemoryError at the k-th one): the call may raise, but a
+        # value it does return is the exact answer
+        case["alloc_fault"] = c2.below(100000)
     return case
 
 
@@ -114,6 +130,15 @@ def generate(rs: int, tier: str, index: int) -> dict:
             if ch.chance(0.1):
                 keys = [sorted(r) for r in keys]
             step = {"id": 0, "k": "glexsort", "keys": keys if (d > 1 or ch.chance(0.5)) else keys[0], "flags": "all", "mutate_first": ch.chance(0.2)}
+            ck = ch.sub("kd")
+            if ck.chance(0.2):
+                # keys handed over in a narrow integer type, values near its limit (column sums do not fit the type)
+                dt = ck.choice(["uint8", "int8", "uint16", "int16", "uint32", "int32"])
+                top = {"uint8": 255, "int8": 127, "uint16": 65535, "int16": 32767, "uint32": 2**32 - 1, "int32": 2**31 - 1}[dt]
+                n = ck.choice([2, 3, 5, 8])
+                d = max(d, 2)
+                step["keys"] = [[(top - ck.below(4)) if ck.chance(0.5) else ck.below(4) for _ in range(n)] for _ in range(d)]
+                step["key_dtype"] = dt
         elif kind == "glexindex":
             step = dict(_gen_index_case(ch.sub("c")), id=0, k="glexindex", mutate_first=ch.chance(0.3))
         elif kind == "bindex":
@@ -270,8 +295,8 @@ class Runner:
     def do_glexsort(self, step: dict) -> None:
         import numpoly
 
-        keys = numpy.array(step["keys"], dtype=int)
-        keys2 = numpy.atleast_2d(keys)
+        keys = numpy.array(step["keys"], dtype=step.get("key_dtype", int))
+        keys2 = numpy.atleast_2d(numpy.array(step["keys"], dtype=object))
         n = keys2.shape[1]
         cols = [tuple(int(v) for v in keys2[:, i]) for i in range(n)]
         flag_sets = [(g, r) for g in (False, True) for r in (False, True)] if step.get("flags") == "all" else [(step["graded"], step["reverse"])]
@@ -400,6 +425,46 @@ class Runner:
             else:
                 self._compare_indices(step, kind, numpy.asarray(res), sure, maybe, key, where, inverse=inverse)
         self.events.append([kind, self._mono_fp(base) if kind == "monomial" else (numpy.asarray(base).tolist() if not isinstance(base, tuple) else list(base))])
+        if step.get("alloc_fault") is not None:
+            self._alloc_fault(step, kind, func, sure, maybe, key, inverse)
+
+    def _alloc_fault(self, step: dict, kind: str, func, sure: list, maybe: set, key, inverse: bool) -> None:
+        with seams.Env(self.rs, sort="stable") as env:
+            env.begin_step(step["id"])
+            try:
+                func()
+            except core.SimInterrupt:
+                raise
+            except Exception:  # noqa: BLE001
+                return
+            total = env.alloc_index
+            if not total:
+                self.bump("undecided:no-fault-position")
+                return
+            env.begin_step(step["id"])
+            env.alloc_fail_at = 1 + step["alloc_fault"] % total
+            self.bump("fault:alloc_memoryerror.configured")
+            try:
+                res = func()
+            except core.SimInterrupt:
+                raise
+            except BaseException:  # noqa: BLE001
+                self.bump("probe:alloc_fault_surfaced")
+                return
+            finally:
+                fired = env.alloc_fail_at is None
+                env.alloc_fail_at = None
+                self.bump("fault:alloc_memoryerror.fired", env.counters.get("fault:alloc_memoryerror.fired", 0))
+        self.bump("decided")
+        if fired:
+            self.bump("probe:alloc_fault_absorbed")
+        where = {"fault": "alloc"}
+        if kind == "monomial":
+            exps = self._monomial_exponents(step, res, where)
+            if exps is not None:
+                self._compare_indices(step, kind, exps, sure, maybe, key, where)
+        else:
+            self._compare_indices(step, kind, numpy.asarray(res), sure, maybe, key, where, inverse=inverse)
 
     @staticmethod
     def _mono_fp(res: Any) -> Any:
@@ -501,7 +566,7 @@ def simplify(plan: dict):
                             nk[r][j] = v - 1
                             yield dict(plan, steps=[dict(step, keys=nk)])
         elif step["k"] in ("glexindex", "bindex", "monomial"):
-            for key in ("bound_dtype", "errstate", "mutate_first", "abort_first"):
+            for key in ("bound_dtype", "errstate", "mutate_first", "abort_first", "alloc_fault", "key_dtype"):
                 if step.get(key):
                     yield dict(plan, steps=[{k: v for k, v in step.items() if k != key}])
             if step["dimensions"] > 1 and not isinstance(step["stop"], list) and not isinstance(step["start"], list):
